@@ -875,6 +875,40 @@ def defined_scope(short):
   return "C18"
 
 
+def unresolved_names(m):
+  """[(name, line of the scope that reads it)]: names a function (or a lambda / comprehension inside it) reads as globals although the module binds no such
+  name and the builtins have none - the read raises NameError.  Scoping comes from the compiler's own symbol tables (symtable), not from a re-implementation."""
+  import symtable, builtins
+  try:
+    top = symtable.symtable(m.src, m.short + ".py", "exec")
+  except SyntaxError:
+    return []
+  if any(isinstance(st, ast.ImportFrom) and any(a.name == "*" for a in st.names) for st in ast.walk(m.tree)):
+    return []          # a star import can bind anything
+  bound = set()
+  for s_ in top.get_symbols():
+    if s_.is_assigned() or s_.is_imported() or s_.is_namespace() or s_.is_parameter():
+      bound.add(s_.get_name())
+  def scopes(t):
+    for c in t.get_children():
+      yield c
+      yield from scopes(c)
+  for sc in scopes(top):
+    for s_ in sc.get_symbols():
+      if s_.is_declared_global() and s_.is_assigned():
+        bound.add(s_.get_name())
+  dunder = {"__name__", "__file__", "__doc__", "__package__", "__spec__", "__loader__", "__builtins__", "__debug__", "__class__", "__annotations__", "__dict__", "__qualname__", "__module__"}
+  out = []
+  for sc in scopes(top):
+    if sc.get_type() == "class":
+      continue
+    for s_ in sc.get_symbols():
+      nm = s_.get_name()
+      if s_.is_referenced() and s_.is_global() and nm not in bound and not hasattr(builtins, nm) and nm not in dunder:
+        out.append((nm, sc.get_lineno()))
+  return out
+
+
 def rule_defined(ctx, R="R-C18-DEFINED", scope="C18"):
   """'returns a boolean, without raising': a local variable read on a path that has not bound it raises UnboundLocalError.  Definite-assignment
   analysis (pcstatic.defassign) of every library function - a 'must be bound' dataflow over if / for / while / try / with, with for-else over non-empty
@@ -885,10 +919,16 @@ def rule_defined(ctx, R="R-C18-DEFINED", scope="C18"):
   for m in sorted(repo.modules.values(), key=lambda m_: m_.short):
     if m.short.startswith("data.") or defined_scope(m.short) != scope:
       continue
+    unresolved = unresolved_names(m)
     for qual, fn in defassign.functions(m.tree):
       n += 1
       reps = defassign.analyse(fn)
       bad = []
+      for name, sl in unresolved:
+        if fn.lineno <= sl <= (fn.end_lineno or fn.lineno):
+          uses = [x.lineno for x in ast.walk(fn) if isinstance(x, ast.Name) and x.id == name and isinstance(x.ctx, ast.Load)]
+          if uses:
+            bad.append("`%s` at line %d: read as a global, but the module binds no such name (no assignment, import, def or class) and it is no builtin: NameError" % (name, min(uses)))
       for name, line, why in reps:
         if (m.short, qual, name) in DEFINED_EXEMPT and any(isinstance(st_, ast.Return) and st_.lineno <= line <= (st_.end_lineno or st_.lineno) for st_ in fn.body):
           continue          # the exemption covers the read in the function's final `return` only, not reads inside the loop
